@@ -459,3 +459,138 @@ Example C06_example_reply :
   run_replyhdr_out [0; 2] = [1; 1; 1; 192; 2] /\ run_replyhdr_out [4294967295; 0] = [1; 1; 0; 255; 1] /\
   code_reply_init false false 4294967294 = [Some (2, 4294967294)].
 Proof. repeat split; vm_compute; reflexivity. Qed.
+
+(* ======================================================================================
+   SECONDARY, IN-PLACE decoders / encoders of message fields.  Next to the read / write method of
+   every message the library reads (and once overwrites) single fields straight at their offset
+   in a frame's payload: messages.go callReqSpan (the tracing of a call req a closing connection
+   or a relay answers with an error frame), relay_messages.go lazyCallReq.Span / TTL / SetTTL /
+   Service / HasMoreFragments, lazyError.Code, isCallResOK / lazyCallRes.OK, hasMoreFragments,
+   finishesCall, frame.go SizedPayload.  "Decoding returns the original fields, for every span bit
+   pattern" and "the bytes equal the specification's" hold for them too:
+
+   Vocabulary.  Spec/C06InPlaceSpec.v (literals only, field encoders of Spec/Protocol.v):
+     s_ip_callreq flags ttl_ms tracing service rest = flags:1 ttl:4 tracing:25 service~1 rest
+     (the complete call req of Spec/ProtocolCall.v is the instance rest = headers ++ csumtype ...),
+     s_ip_callres flags code rest = flags:1 code:1 rest, s_ip_more = bit 0x01 of the flags,
+     s_ip_finishes = "this frame ends the call", s_run_c06inplace = the specified observable of a
+     harness case (the case carries FIELDS).
+   Model/C06InPlace.v: ip_span / ip_ttl / ip_set_ttl / ip_service / ip_more / ip_err_code /
+     ip_res_ok / ip_finishes / ip_error_payload = one definition per Go function over the payload
+     bytes at the GENERATED offsets (None = the Go code panics); run_c06inplace = the accessors run
+     on the payload the specification encoder lays out (engine c06inplace replays it on the real code).
+   Gen/GenC06InPlace.v (go2v/c06inplace.go, regenerated on every run): ip_callReqSpan, ip_lazyCallReq_*
+     ... = the Go functions themselves; ip_frame h p = a Frame with header h and payload bytes p.
+   ====================================================================================== *)
+From Verif Require Import Gen.GenC06InPlace Spec.C06InPlaceSpec Model.C06InPlace Proofs.C06InPlaceP Proofs.C06InPlaceGenP.
+
+(* the offsets used by the code are the places of the specified layout *)
+Theorem C06_inplace_offsets :
+  [c_u_flagsIndex; c_u_ttlIndex; c_u_ttlLen; c_u_spanIndex; c_u_spanLength; c_u_serviceLenIndex; c_u_serviceNameIndex;
+   c_u_resCodeIndex; c_u_resCodeOK; c_u_errCodeIndex; c_hasMoreFragmentsFlag]
+  = [0; 1; 4; 5; 25; 30; 31; 1; 0; 0; 1].
+Proof. exact ip_offsets. Qed.
+
+(* for every call req laid out by the specification -- every span bit pattern, every ttl, every
+   service name, anything behind it -- the in-place decoders return the fields: the span in WIRE
+   order (spanid, parentid, traceid, flags), the ttl in ns, the service name; SetTTL changes the
+   ttl field and nothing else; the error frame built for the call carries the call's tracing *)
+Theorem C06_inplace_callreq : forall flags ttl_ms a b c d service rest,
+  u_ok 8 a -> u_ok 8 b -> u_ok 8 c -> u_ok 1 d -> 0 <= ttl_ms < 4294967296 -> zlen service <= 255 ->
+  let tr := s_tracing a b c d in
+  let p := s_ip_callreq flags ttl_ms tr service rest in
+  ip_span p = Some (mkSpan a b c d) /\
+  ip_ttl p = Some (ttl_ms * 1000000) /\
+  ip_service p = Some service /\
+  (forall dns, 0 <= dns < 4294967296000000 ->
+     ip_set_ttl p dns = Some (s_ip_callreq flags (dns / 1000000) tr service rest)) /\
+  (forall code msg, 0 <= code < 256 -> zlen msg <= 65491 -> bytes_ok msg = true ->
+     ip_error_payload p code msg = Some (s_error code tr msg)).
+Proof. exact ip_callreq_fields. Qed.
+
+(* the flag / code bytes: more-fragments bit, "ends the call", call res ok, error code *)
+Theorem C06_inplace_bytes :
+  (forall flags r, 0 <= flags < 256 -> ip_more (flags :: r) = Some (s_ip_more flags)) /\
+  (forall mtype flags r, 0 <= flags < 256 -> ip_finishes mtype (flags :: r) = Some (s_ip_finishes mtype flags)) /\
+  (forall flags code r, ip_res_ok (s_ip_callres flags code r) = Some (code =? 0)) /\
+  (forall code tr msg, 0 <= code < 256 -> ip_err_code (s_error code tr msg) = Some code).
+Proof. exact ip_byte_fields. Qed.
+
+(* the entry point the engine replays against the implementation IS the specified observable *)
+Theorem C06_inplace_spec : forall c, run_c06inplace c = s_run_c06inplace c.
+Proof. exact run_c06inplace_spec. Qed.
+
+(* the model is the code: every in-place function REGENERATED from the source agrees with its
+   model definition, on every frame (header h, payload bytes p); no panic iff the model has a value *)
+Theorem C06_inplace_generated :
+  (forall h p, bytes_ok p = true -> option_map absSpan (ip_callReqSpan (ip_frame h p)) = ip_span p) /\
+  (forall h p, bytes_ok p = true -> option_map absSpan (ip_lazyCallReq_Span (mk_lazyCallReq (ip_frame h p))) = ip_span p) /\
+  (forall h p, ip_lazyCallReq_TTL (mk_lazyCallReq (ip_frame h p)) = ip_ttl p) /\
+  (forall h p d,
+     option_map (fun r => (Frame_Header (lazyCallReq_Frame r), bs_list (Frame_Payload (lazyCallReq_Frame r))))
+                (ip_lazyCallReq_SetTTL (mk_lazyCallReq (ip_frame h p)) d) = option_map (fun q => (h, q)) (ip_set_ttl p d)) /\
+  (forall h p, option_map bs_list (ip_lazyCallReq_Service (mk_lazyCallReq (ip_frame h p))) = ip_service p) /\
+  (forall h p, ip_hasMoreFragments (ip_frame h p) = ip_more p /\
+               ip_lazyCallReq_HasMoreFragments (mk_lazyCallReq (ip_frame h p)) = ip_more p) /\
+  (forall h p, ip_lazyError_Code (mk_lazyError (ip_frame h p)) = ip_err_code p) /\
+  (forall h p, ip_isCallResOK (ip_frame h p) = ip_res_ok p /\ ip_lazyCallRes_OK (mk_lazyCallRes (ip_frame h p)) = ip_res_ok p) /\
+  (forall h p, ip_finishesCall (ip_frame h p) = ip_finishes (FrameHeader_messageType h) p) /\
+  (forall h p, option_map bs_list (ip_Frame_SizedPayload (ip_frame h p)) = ip_slice p 0 (wrapU 16 (FrameHeader_size h - 16))).
+Proof. exact inplace_generated. Qed.
+
+(* composed: the REGENERATED callReqSpan / lazyCallReq.Span on a call req laid out by the
+   specification return a Go Span whose spanID / parentID / traceID / flags are the specification's
+   spanid / parentid / traceid / traceflags -- for every bit pattern *)
+Theorem C06_inplace_span_generated : forall h flags ttl_ms a b c d service rest,
+  u_ok 8 a -> u_ok 8 b -> u_ok 8 c -> u_ok 1 d -> 0 <= flags < 256 ->
+  zlen service <= 255 -> bytes_ok service = true -> bytes_ok rest = true ->
+  let f := ip_frame h (s_ip_callreq flags ttl_ms (s_tracing a b c d) service rest) in
+  exists s, ip_callReqSpan f = Some s /\ ip_lazyCallReq_Span (mk_lazyCallReq f) = Some s /\
+            Span_spanID s = a /\ Span_parentID s = b /\ Span_traceID s = c /\ Span_flags s = d.
+Proof. exact inplace_span_generated. Qed.
+
+(* ... and the REGENERATED errorMessage.write of the error frame SendSystemError builds with that
+   span appends code:1, THE CALL REQ'S 25 tracing bytes, message~2 *)
+Theorem C06_inplace_error_frame_generated : forall h flags ttl_ms a b c d service rest,
+  u_ok 8 a -> u_ok 8 b -> u_ok 8 c -> u_ok 1 d -> 0 <= flags < 256 ->
+  zlen service <= 255 -> bytes_ok service = true -> bytes_ok rest = true ->
+  forall s id code msg g,
+  ip_callReqSpan (ip_frame h (s_ip_callreq flags ttl_ms (s_tracing a b c d) service rest)) = Some s ->
+  wfW g -> 0 <= code < 256 -> zlen msg <= 65535 -> bytes_ok msg = true ->
+  WriteBuffer_err g = 0 -> zlen (s_error code (s_tracing a b c d) msg) <= rs_len (WriteBuffer_remaining g) ->
+  exists e g', errorMessage_write (mk_errorMessage id code s msg) g = Some (e, g') /\
+               wout (absW g') = wout (absW g) ++ s_error code (s_tracing a b c d) msg /\ werr (absW g') = 0.
+Proof. exact inplace_error_frame_generated. Qed.
+
+(* the in-place parts of the relay's hand model (Model/RelayLazy.v: C08 / C14) are the same functions *)
+Theorem C06_inplace_relay_model : forall p, 30 <= zlen p ->
+  ip_span p = Some (RelayLazy.span_of p) /\
+  ip_ttl p = Some (GenRelayFwd.lazyTTL (RelayLazy.lazy_ttl_ms p)) /\
+  (forall d, ip_set_ttl p d = Some (RelayLazy.set_ttl p d)).
+Proof. exact ip_relaylazy_agree. Qed.
+
+Print Assumptions C06_inplace_callreq.
+Print Assumptions C06_inplace_spec.
+Print Assumptions C06_inplace_generated.
+Print Assumptions C06_inplace_span_generated.
+Print Assumptions C06_inplace_error_frame_generated.
+
+(* non-vacuity: a call req with a NON-ROOT span (span id 0x2122..28, parent 0x1112..18, trace
+   0x0102..08), more-fragments flag set, ttl 1500 ms, service "svc": the regenerated decoders on
+   the specified bytes, and the tracing bytes of the error frame *)
+Example C06_example_inplace :
+  let a := 2387509390608836392 in let b := 1230066625199609624 in let c := 72623859790382856 in
+  let p := s_ip_callreq 1 1500 (s_tracing a b c 1) [115; 118; 99] [0; 0; 0; 0; 0; 0; 0; 0; 0] in
+  let f := ip_frame (mk_FrameHeader 56 3 0 7 (repeat 0 8)) p in
+  ip_callReqSpan f = Some (mk_Span c b a 1) /\
+  ip_lazyCallReq_TTL (mk_lazyCallReq f) = Some 1500000000 /\
+  option_map bs_list (ip_lazyCallReq_Service (mk_lazyCallReq f)) = Some [115; 118; 99] /\
+  ip_hasMoreFragments f = Some true /\ ip_finishesCall f = Some false /\
+  ip_error_payload p 3 [98; 117; 115; 121]
+    = Some ([3; 33;34;35;36;37;38;39;40; 17;18;19;20;21;22;23;24; 1;2;3;4;5;6;7;8; 1; 0;4; 98;117;115;121]) /\
+  run_c06inplace ([0; 1; 1500; 555885348; 623257384; 286397204; 353769240; 16909060; 84281096; 1; 2000000000; 3]
+                  ++ [3; 115; 118; 99] ++ [1; 0] ++ [4; 98; 117; 115; 121])
+    = [0; 555885348; 623257384; 286397204; 353769240; 16909060; 84281096; 1; 1500000000; 1; 0; 3; 115; 118; 99]
+      ++ [35; 1; 0;0;7;208; 33;34;35;36;37;38;39;40; 17;18;19;20;21;22;23;24; 1;2;3;4;5;6;7;8; 1; 3;115;118;99; 0]
+      ++ [32; 3; 33;34;35;36;37;38;39;40; 17;18;19;20;21;22;23;24; 1;2;3;4;5;6;7;8; 1; 0;4; 98;117;115;121].
+Proof. cbv zeta. repeat split; vm_compute; reflexivity. Qed.
